@@ -15,10 +15,19 @@ import (
 )
 
 const (
-	repoDir  = "/repo"
 	verifDir = "/verif"
 	simDir   = "/verif/sim"
 )
+
+// repoDir is the tree under test: /repo, or (VERIF_REPO, used only by
+// tools/seedtest.sh for deliberately broken scratch worktrees) another
+// checkout of it.
+var repoDir = func() string {
+	if d := os.Getenv("VERIF_REPO"); d != "" {
+		return d
+	}
+	return "/repo"
+}()
 
 func goEnv() []string {
 	env := os.Environ()
@@ -162,6 +171,20 @@ func build(race bool, yields bool) (*buildOut, error) {
 	}
 	bin := filepath.Join(sc, "sim.test")
 	args := []string{"test", "-c", "-tags", "synctests,verif,verifrt", "-overlay", ovf, "-o", bin}
+	if repoDir != "/repo" {
+		// same module file with the replace directives pointing at the other checkout
+		gm, err := os.ReadFile(filepath.Join(simDir, "go.mod"))
+		if err != nil {
+			return nil, err
+		}
+		gs, _ := os.ReadFile(filepath.Join(simDir, "go.sum"))
+		mf := filepath.Join(sc, "go.mod")
+		if err := os.WriteFile(mf, []byte(strings.ReplaceAll(string(gm), "=> /repo", "=> "+repoDir)), 0o644); err != nil {
+			return nil, err
+		}
+		os.WriteFile(filepath.Join(sc, "go.sum"), gs, 0o644)
+		args = append(args, "-modfile", mf)
+	}
 	if race {
 		args = append(args, "-race")
 	}
